@@ -1,0 +1,39 @@
+//go:build verif
+
+// Verification hooks (build tag "verif") for the replay property. Add-only.
+
+package protocol
+
+import (
+	"encoding/binary"
+
+	"github.com/enfein/mieru/v3/pkg/cipher"
+)
+
+// VerifConstsC06 exports the parameters of the two process-wide replay caches and the key
+// refresh interval they are derived from.
+func VerifConstsC06() map[string]int64 {
+	sc, si := streamReplayCache.VerifParams()
+	pc, pi := packetReplayCache.VerifParams()
+	return map[string]int64{
+		"streamReplayCapacity":   int64(sc),
+		"streamReplayIntervalNs": int64(si),
+		"packetReplayCapacity":   int64(pc),
+		"packetReplayIntervalNs": int64(pi),
+		"keyRefreshIntervalNs":   int64(cipher.KeyRefreshInterval),
+	}
+}
+
+// VerifUnmarshalWithTimestamp marshals a well-formed metadata of the given kind (0: open session
+// request, 1: client-to-server data), overwrites the timestamp field (bytes 2..5) with the given
+// minute counter and returns what Unmarshal says about it.
+func VerifUnmarshalWithTimestamp(kind int, minute uint32) error {
+	if kind == 0 {
+		b := (&sessionStruct{baseStruct: baseStruct{protocol: uint8(openSessionRequest)}, sessionID: 1}).Marshal()
+		binary.BigEndian.PutUint32(b[2:], minute)
+		return (&sessionStruct{}).Unmarshal(b)
+	}
+	b := (&dataAckStruct{baseStruct: baseStruct{protocol: uint8(dataClientToServer)}, sessionID: 1}).Marshal()
+	binary.BigEndian.PutUint32(b[2:], minute)
+	return (&dataAckStruct{}).Unmarshal(b)
+}
